@@ -75,9 +75,10 @@ type dirState struct {
 }
 
 type step struct {
-	Act string     `json:"act"`
-	Ps  []absEntry `json:"ps"`
-	Exp *dirState  `json:"exp"`
+	Act  string     `json:"act"`
+	Ps   []absEntry `json:"ps"`
+	Exp  *dirState  `json:"exp"`
+	Keep int        `json:"keep"`
 }
 
 type bookEnt struct {
@@ -95,6 +96,7 @@ type script struct {
 	ID    int        `json:"id"`
 	M     string     `json:"m"`
 	Kind  string     `json:"kind"`
+	SKind string     `json:"skind"`
 	Path  string     `json:"path"`
 	Src   []absEntry `json:"src"`
 	Tgt0  []absEntry `json:"tgt0"`
@@ -506,7 +508,10 @@ func (e *env) runXfer(s *script) error {
 	da, db := filepath.Join(dir, "a"), filepath.Join(dir, "b")
 	os.MkdirAll(da, 0700)
 	os.MkdirAll(db, 0700)
-	ma_, cfA, err := stateMgr(s.Kind, da, identA)
+	if s.SKind == "" {
+		s.SKind = s.Kind
+	}
+	ma_, cfA, err := stateMgr(s.SKind, da, identA)
 	if err != nil {
 		return err
 	}
@@ -514,7 +519,7 @@ func (e *env) runXfer(s *script) error {
 	if err != nil {
 		return err
 	}
-	if err := populate(s.Kind, ma_, cfA, identA, srcPins); err != nil {
+	if err := populate(s.SKind, ma_, cfA, identA, srcPins); err != nil {
 		return fmt.Errorf("populate source: %v", err)
 	}
 	if err := populate(s.Kind, mb, cfB, identB, tgtPins); err != nil {
@@ -539,7 +544,7 @@ func (e *env) runXfer(s *script) error {
 		}
 		stream = append(stream, n.proj(&p))
 	}
-	e.emit("sid", s.ID, "m", "xfer", "act", "Export", "kind", s.Kind, "src", src, "stream", stream, "err", errStr(expErr))
+	e.emit("sid", s.ID, "m", "xfer", "act", "Export", "kind", s.Kind, "skind", s.SKind, "src", src, "stream", stream, "err", errStr(expErr))
 
 	pre, err := listMgr(mb)
 	if err != nil {
@@ -550,10 +555,10 @@ func (e *env) runXfer(s *script) error {
 	if err != nil && impErr == nil {
 		impErr = fmt.Errorf("target unreadable after import: %v", err)
 	}
-	e.emit("sid", s.ID, "m", "xfer", "act", "Import", "kind", s.Kind, "src", src, "stream", stream,
+	e.emit("sid", s.ID, "m", "xfer", "act", "Import", "kind", s.Kind, "skind", s.SKind, "src", src, "stream", stream,
 		"pre", n.projAll(pre), "post", n.projAll(post), "err", errStr(impErr))
 	// the imported state is a Raft snapshot: a peer started on it must hold the pinset
-	if s.Kind == "raft" && impErr == nil && (hx.Thorough() || s.ID%4 == 0) {
+	if s.Kind == "raft" && impErr == nil && (hx.Thorough() || h64("startpeer", e.seed, s.ID)%3 == 0) {
 		got, opErr, infra := startPeer(cfB.Raft.GetDataFolder(), privB)
 		if infra != nil {
 			got, opErr, infra = startPeer(cfB.Raft.GetDataFolder(), privB)
@@ -787,6 +792,8 @@ func (e *env) runRot(s *script) error {
 			opErr = guard(func() error { return raft.SnapshotSave(cfg, ms, []peer.ID{id}) })
 		case "RotClean":
 			opErr = guard(func() error { return raft.CleanupRaft(cfg) })
+		case "RotRekeep":
+			cfg.BackupsRotate = st.Keep
 		case "RotMkLogs":
 			if err := os.MkdirAll(filepath.Join(base, "raft"), 0700); err != nil {
 				return err
@@ -801,7 +808,7 @@ func (e *env) runRot(s *script) error {
 		if err != nil {
 			return err
 		}
-		e.emit("sid", s.ID, "m", "rot", "act", st.Act, "keep", s.Keep, "marker", marker, "pre", pre, "post", post,
+		e.emit("sid", s.ID, "m", "rot", "act", st.Act, "keep", cfg.BackupsRotate, "marker", marker, "pre", pre, "post", post,
 			"exp", st.Exp, "extra", extra, "err", errStr(opErr))
 		pre = post
 	}
@@ -1124,7 +1131,7 @@ func TestDriver(t *testing.T) {
 					res.Infra("script %d (%s): %v", s.ID, s.M, err)
 				}
 				id := map[string]interface{}{"m": s.M, "kind": s.Kind, "path": s.Path, "src": s.Src, "tgt0": s.Tgt0,
-					"steps": s.Steps, "keep": s.Keep, "old": s.Old, "book": s.Book, "junk": s.Junk}
+					"skind": s.SKind, "steps": s.Steps, "keep": s.Keep, "old": s.Old, "book": s.Book, "junk": s.Junk}
 				res.Case(id, s.NT)
 				res.Count(-1) // evaluations = recorded steps (counted in emit)
 			}
